@@ -198,6 +198,19 @@ CHECKS["C20"] = dict(
          "formatting) - no symbolic float survives '%'; unit strings come from the `quantities` package",
     technique=Z + "; CrossHair (symbolic execution with z3) for the string renderers", ref="DESIGN.md section 5 C20")
 
+CHECKS["C12"] = dict(
+    engine="X", category="other",
+    text="bounded symbolic verification with CrossHair (symbolic execution of the real from_string / to_reaction / _parse_multiplicity / "
+         "printer code, z3 per path, 'Confirmed over all paths'): coefficients are symbolic integers 1..1000 rendered into the line; each "
+         "harness states the exact expected dictionaries for 'n K', 'n * K', bare keys, repeated species (summed), '(n K)' inactive groups, "
+         "the arrow of each class, allowed-key rejection, quoted parameter names and keyword parts, print->parse round trip and copy "
+         "equality, over six pairs of tricky space-free keys (leading brackets, charges, phases, primes, radicals, greek prefixes); one "
+         "harness over a fully symbolic key string",
+    note="<= 2 symbolic integers per harness; symbolic key string of length <= 2 (thorough 3) over the alphabet 'A(2)-['; parameters "
+         "'to printed precision' (%.3g floats) and unit-carrying parameters are not applicable; eval of parameter expressions is "
+         "exercised with concrete text only",
+    technique="CrossHair symbolic execution (z3) of PEP316 contract harnesses calling the real API", ref="DESIGN.md section 5 C12")
+
 NA = {
     "C09": "property is about float conversion factors produced inside the 'quantities' package and numpy array helpers; no symbolic "
            "value survives to_unitless (float(result)), and symbolic magnitudes alone would only re-prove linearity (DESIGN.md section 6)",
